@@ -65,6 +65,7 @@ __all__ = ['BundleKeys', 'Process', 'ProcessSpec', 'TransitionFailed']
 
 _LOGGER = logging.getLogger(__name__)
 PROCESS_STACK = ContextVar('process stack', default=[])
+_KILLED_BY_CANCEL_MSG = 'Killed by future being cancelled'
 
 
 class BundleKeys:
@@ -345,7 +346,7 @@ class Process(StateMachine, persistence.Savable, metaclass=ProcessStateMachineMe
 
             def try_killing(future: futures.Future) -> None:
                 if future.cancelled():
-                    if not self.kill('Killed by future being cancelled'):
+                    if not self.kill(_KILLED_BY_CANCEL_MSG):
                         self.logger.warning(
                             'Process<%s>: Failed to kill process on future cancel',
                             self.pid,
@@ -906,6 +907,9 @@ class Process(StateMachine, persistence.Savable, metaclass=ProcessStateMachineMe
             msg_txt = msg[MESSAGE_TEXT_KEY] or ''
 
         self.set_status(msg_txt)
+        if self.future().done():
+            # The future was cancelled (which is what triggered the kill), replace it such that it can carry the outcome
+            self._future = persistence.SavableFuture(loop=self._loop)
         self.future().set_exception(exceptions.KilledError(msg_txt))
 
     @super_check
@@ -1343,6 +1347,11 @@ class Process(StateMachine, persistence.Savable, metaclass=ProcessStateMachineMe
             # Killed while it was paused
             return
 
+        if self.future().cancelled():
+            # The callback that kills the process in response has not come round yet
+            self.kill(_KILLED_BY_CANCEL_MSG)
+            return
+
         try:
             self._stepping = True
             next_state = None
@@ -1367,6 +1376,10 @@ class Process(StateMachine, persistence.Savable, metaclass=ProcessStateMachineMe
             if self.has_terminated():
                 # Terminated while the step was in flight, e.g. failed by a scheduled callback that raised
                 return
+
+            if self.future().cancelled() and self._killing is None:
+                # Cancelled while the step was in flight and the callback that kills the process has not come round yet
+                self.kill(_KILLED_BY_CANCEL_MSG)
 
             if isinstance(next_state, process_states.Excepted):
                 # The step failed, which takes precedence over a pending pause or kill
